@@ -253,14 +253,40 @@ fn main() {
     let scale = std::env::var("VERIF_SCALE").ok().and_then(|s| s.parse().ok()).unwrap_or(1.0);
     let cfg = RunCfg { property: static_id(id), tier, seed, workers, scale, root: root.clone() };
     let timer = Timer::start();
-    let rep = match run_check(id, &cfg) {
+    // seconds-long replay tier: saved minimal cases of earlier findings (repaired defects and
+    // seeded changes), re-executed without the generators before the search starts
+    let mut regress_fail: Option<(String, String)> = None;
+    let mut regress_n = 0u64;
+    if let Ok(rd) = std::fs::read_dir(format!("{root}/regress/{id}")) {
+        let mut files: Vec<_> = rd.filter_map(|e| e.ok()).map(|e| e.path()).filter(|p| p.extension().map(|x| x == "json").unwrap_or(false)).collect();
+        files.sort();
+        for f in files {
+            let Ok(text) = std::fs::read_to_string(&f) else { continue };
+            let Ok(v) = serde_json::from_str::<serde_json::Value>(&text) else { continue };
+            regress_n += 1;
+            if let Some(Err(reason)) = replay_check(id, &v, &cfg) {
+                if regress_fail.is_none() {
+                    regress_fail = Some((reason, f.display().to_string()));
+                }
+            }
+        }
+    }
+    let mut rep = match run_check(id, &cfg) {
         Some(r) => r,
         None => {
             eprintln!("unknown property {id}");
             std::process::exit(2)
         }
     };
+    rep.extra.insert("regression_replays".into(), serde_json::json!(regress_n));
+    rep.stats.evaluations += regress_n;
     let wall = timer.secs();
+    if let Some((reason, path)) = &regress_fail {
+        if rep.violation.is_none() {
+            rep.violation = Some((reason.clone(), serde_json::json!({"regression_file": path})));
+            rep.extra.insert("violation_from_regression_file".into(), serde_json::json!(path));
+        }
+    }
     let evidence = std::env::var("VERIF_EVIDENCE").unwrap_or_else(|_| format!("{root}/evidence/{id}.json"));
     write_evidence(&cfg, &rep, wall, &evidence);
     for (kid, text) in &rep.known_lines {
@@ -274,6 +300,11 @@ fn main() {
         wall,
         seed
     );
+    if let Some((reason, path)) = &regress_fail {
+        println!("violation (saved regression case): {reason}");
+        println!("VIOLATION property={id} replay={path}");
+        std::process::exit(1);
+    }
     if let Some((reason, replay)) = &rep.violation {
         let path = save_replay(id, replay, &format!("{root}/replays"));
         println!("violation: {reason}");
